@@ -27,6 +27,24 @@ DESIGN_REF = "DESIGN.md §5 C13"
 SIZE_SPEC = "max(math.ceil(D / T) + I, 1)"
 
 
+def recompute_on_every_path(ctx, rule):
+    """dt / duration setters store and recompute the record size on *every* normal path: `inclusive` re-assigns an unchanged
+    duration to trigger the resize, so a skip-if-unchanged shortcut would leave the record one slot off."""
+    P = ctx.prog
+    rt = P.cls("RecordTensor")
+    for pname in ("dt", "duration"):
+        s = rt.props.get(pname, {}).get("set")
+        if s is None:
+            raise AnalysisError(f"anchor vanished: RecordTensor.{pname}.setter")
+        g = CFG(s.node)
+        sizes = [n for n in g.nodes if n.kind == "stmt" and isinstance(n.ast, ast.Assign) and isinstance(n.ast.targets[0], ast.Name) and n.ast.targets[0].id == "size"]
+        tests = [n for n in g.nodes if n.kind == "test" and "size" in ast.unparse(n.ast) and "recordsz" in ast.unparse(n.ast)]
+        ok = bool(sizes) and g.must_pass(sizes) and bool(tests) and g.must_pass(tests)
+        ctx.ob(rule, f"RecordTensor.{pname}.setter recomputes and compares the size on every path", ok,
+               "" if ok else "a path returns before the size is recomputed: RecordTensor.inclusive re-enters this setter with an unchanged value to resize the record",
+               s.where)
+
+
 def check(ctx):
     P = ctx.prog
     rt, st = P.cls("RecordTensor"), P.cls("ShapedTensor")
@@ -87,6 +105,7 @@ def check(ctx):
                    "align() raises 'cannot align uninitialized storage', and this resize path calls it unguarded (RecordTensor.reconstrain guards the same call): "
                    "changing dt/duration/inclusive of a record that has no storage yet fails", P.loc(s, a.ast), None)
     ctx.require("C13.a", "record-size formula sites", nsites, 3)
+    recompute_on_every_path(ctx, "C13.b")
     inc = rt.props.get("inclusive", {}).get("set")
     if inc is None:
         raise AnalysisError("anchor vanished: RecordTensor.inclusive.setter")
@@ -159,6 +178,28 @@ def check(ctx):
            "" if grow else "growing does not concatenate (zeros(size - old), tensor) in that order along dim: older new slots would not be zero or the newest data would move", mc.where)
     ctx.ob("C13.d", "ShapedTensor.__make_compatible: equal size returns the tensor unchanged", same, "", mc.where)
 
+    rz = st.methods.get("resize")
+    if rz is not None:
+        ctx.touch(rz)
+        pts = sorted([n for n in walk_own(rz.node) if isinstance(n, ast.If) and isinstance(n.test, ast.Name) and n.test.id == "preserve_tail"], key=lambda n: n.lineno)
+        ok = len(pts) == 2
+        if ok:
+            def val(stmts):
+                return stmts[0].value if stmts and isinstance(stmts[0], ast.Assign) else None
+            sh_t, sh_h, gr_t, gr_h = val(pts[0].body), val(pts[0].orelse), val(pts[1].body), val(pts[1].orelse)
+            env = {"value.shape[dim]": old, "size": size}
+
+            def T_(e):
+                return terms.Builder(None, None, {"size": size}).t(ast.parse(ast.unparse(e).replace("value.shape[dim]", "old"), mode="eval").body) if e is not None else None
+            ok = isinstance(sh_t, ast.Call) and dotted(sh_t.func) == "slice" and nf.equal(T_(sh_t.args[0]), old - size) and ast.unparse(sh_t.args[1]) == "None" \
+                and isinstance(sh_h, ast.Call) and dotted(sh_h.func) == "slice" and ast.unparse(sh_h.args[0]) == "None" and nf.equal(T_(sh_h.args[1]), size)
+
+            def cat_order(e):
+                if isinstance(e, ast.Call) and dotted(e.func) == "torch.cat" and isinstance(e.args[0], ast.Tuple) and len(e.args[0].elts) == 2 and ast.unparse(e.args[1]) == "dim":
+                    return ["fill" if isinstance(x, ast.Call) else "value" for x in e.args[0].elts]
+                return None
+            ok = ok and cat_order(gr_t) == ["fill", "value"] and cat_order(gr_h) == ["value", "fill"]
+        ctx.ob("C13.d", "ShapedTensor.resize: preserve_tail keeps the tail / prepends the fill; otherwise keeps the head / appends", ok, "", rz.where)
     # ---------------- (e) refuse-before-mutate in ShapedTensor.reconstrain
     rc = st.methods.get("reconstrain")
     if rc is None:
